@@ -301,9 +301,9 @@ fn check(hist: &Histogram, model: &Model, path: usize, via_collect: bool) -> Res
             h.get_bucket().iter().map(|b| (b.upper_bound(), b.cumulative_count())).collect::<Vec<_>>(),
         )
     };
-    let got_bounds: Vec<u64> = buckets.iter().map(|b| b.0.to_bits()).collect();
-    let want_bounds: Vec<u64> = model.bounds.iter().map(|b| b.to_bits()).collect();
-    if got_bounds != want_bounds {
+    // numerically equal bounds (an implementation may normalise -0.0)
+    let same_bounds = buckets.len() == model.bounds.len() && buckets.iter().zip(&model.bounds).all(|(g, w)| g.0 == *w);
+    if !same_bounds {
         return Err(fail(
             "exposed-bounds-differ",
             format!("exposed bounds {:?} but the adjusted configuration is {:?}", buckets.iter().map(|b| b.0).collect::<Vec<_>>(), model.bounds),
